@@ -84,6 +84,9 @@ type Config struct {
 	Horizon time.Duration
 	// MaxSteps bounds the scheduling decisions of one execution (livelock guard).
 	MaxSteps int
+	// NoLockPoints: a free Mutex/RWMutex is taken without entering the scheduler at all
+	// (the policy "free fine-grained locks are not preemption points", independent of the site).
+	NoLockPoints bool
 	// TimerRace: a due-soonest timer may fire while threads are still enabled
 	// (one more alternative, costs a deviation).
 	TimerRace bool
@@ -272,11 +275,9 @@ func describe(t *thread) string {
 	return t.pending.kind.String() + " @" + t.pending.site
 }
 
-// noPreempt: the point policy says a thread is never voluntarily preempted in
-// front of an enabled operation of this kind (the policy must not depend on the
-// site for such kinds); lets free locks skip the scheduler entirely.
+// noPreempt: free locks skip the scheduler entirely when the harness asked for it.
 func (x *Exec) noPreempt(k OpKind) bool {
-	return x.cfg.Preempt != nil && !x.cfg.Preempt(k, "")
+	return x.cfg.NoLockPoints && (k == OpLock || k == OpRLock)
 }
 
 // point is the heart: the current thread announces op and yields to the scheduler.
